@@ -58,6 +58,51 @@ pub fn replay(path: &str) -> i32 {
             println!("expected : {}", w.get("expected").map(|e| e.to_string()).unwrap_or_else(|| "(see recorded detail)".into()));
             println!("unit test: parse {t:?} with ParserBuilder::with_stdlib() (partials {partials:?}) and render on {}", w["data"]);
         }
+        "reexec" => {
+            // one parsed template rendered for every entry of `history` in turn
+            let t = w["template"].as_str().unwrap_or("");
+            let partials = partials_of(w);
+            let p = cfgs::build(Config::Full, if partials.is_empty() { Policy::None } else { Policy::Eager }, &partials).expect("parser");
+            match cfgs::parse_guarded(&p, t) {
+                Ok(Ok(tmpl)) => {
+                    for (i, d) in w["history"].as_array().cloned().unwrap_or_default().iter().enumerate() {
+                        let data = V::from_json(d);
+                        let globals = if matches!(data, V::Obj(_)) { data.to_object() } else { liquid::Object::new() };
+                        let r = cfgs::render_guarded(&tmpl, &globals);
+                        println!("now  #{}  : {:?}   (data {})", i + 1, r.map_err(|pi| pi.describe()), d);
+                        let fresh = cfgs::run_case(&cfgs::build(Config::Full, if partials.is_empty() { Policy::None } else { Policy::Eager }, &partials).expect("parser"), t, &globals).0;
+                        println!("fresh #{} : {}", i + 1, fresh.short());
+                    }
+                }
+                other => println!("now      : template does not parse: {:?}", other.map(|r| r.map(|_| ())).map_err(|pi| pi.describe())),
+            }
+            println!("unit test: parse {t:?} once, render it with each entry of `history` in turn, compare the last result with a freshly parsed copy");
+        }
+        "history" => {
+            // histories of render calls on one shared parser: [[template index, data index], ...]
+            let texts: Vec<String> = w["templates"].as_array().map(|a| a.iter().filter_map(|x| x.as_str().map(|s| s.to_string())).collect()).unwrap_or_default();
+            let datas: Vec<V> = w["data"].as_array().map(|a| a.iter().map(V::from_json).collect()).unwrap_or_default();
+            let partials = partials_of(w);
+            let pol = match w["policy"].as_str() {
+                Some("Lazy") => Policy::Lazy,
+                Some("OnDemand") => Policy::OnDemand,
+                _ => Policy::Eager,
+            };
+            let p = cfgs::build(Config::Full, pol, &partials).expect("parser");
+            let tmpls: Vec<_> = texts.iter().map(|t| cfgs::parse_guarded(&p, t)).collect();
+            for (i, step) in w["history"].as_array().cloned().unwrap_or_default().iter().enumerate() {
+                let (ti, di) = (step[0].as_u64().unwrap_or(0) as usize, step[1].as_u64().unwrap_or(0) as usize);
+                let (Some(Ok(Ok(t))), Some(d)) = (tmpls.get(ti), datas.get(di)) else {
+                    println!("step #{}: template {ti} / data {di} not available in the witness", i + 1);
+                    continue;
+                };
+                let globals = if matches!(d, V::Obj(_)) { d.to_object() } else { liquid::Object::new() };
+                println!("now  #{}  : template {ti} on data {di}: {:?}", i + 1, cfgs::render_guarded(t, &globals).map_err(|pi| pi.describe()));
+                let fp = cfgs::build(Config::Full, pol, &partials).expect("parser");
+                println!("fresh #{} : {}", i + 1, cfgs::run_case(&fp, &texts[ti], &globals).0.short());
+            }
+            println!("expected : every call equals the same call on a freshly built parser ({})", w.get("expected").map(|e| e.to_string()).unwrap_or_default());
+        }
         "date-format" => {
             let ts = w["timestamp"].as_str().unwrap_or("");
             let f = w["format"].as_str().unwrap_or("");
